@@ -11,3 +11,4 @@ RC=$?
 git -C /repo checkout -- .; rm -rf /verif/replays/$ID
 grep -a -E "^VIOLATION|^KNOWN|^MACHINERY|^C[0-9]+ " /tmp/seedrun.out | cut -c1-400 | head -8
 echo "exit=$RC"
+cd /verif/harness && cargo build --release 2>&1 | grep -E "^error" -A7 | head
